@@ -748,6 +748,11 @@ func (r *Run) assignComps(sp *FuncSpec, a Expr) ([]string, bool) {
 				if s, ok := x.Args[0].(*EStr); ok {
 					return []string{s.V}, false
 				}
+			case "allmaps":
+				if cs := r.allMapsComps(r.specEnvPkg(sp), x); cs != nil {
+					return cs, false
+				}
+				return nil, true
 			case "allelems", "allboxes":
 				if s, ok := x.Args[0].(*EStr); ok {
 					if t := r.resolveType(r.specEnvPkg(sp), s.V); t != nil {
@@ -922,6 +927,17 @@ func (r *Run) resolveTarget(env *Env, a Expr, sp *FuncSpec) func(st *State) {
 				}
 				env.fail("%s: unknown type", id.Name)
 				return nop
+			case "allmaps":
+				cs := r.allMapsComps(r.specEnvPkg(sp), x)
+				if cs == nil {
+					env.fail("allmaps: unknown types")
+					return nop
+				}
+				return func(st *State) {
+					for _, c := range cs {
+						r.heapSet(st, c, r.ctx.Fresh("hv."+c, r.compSort(c)))
+					}
+				}
 			case "comp":
 				if s, ok := x.Args[0].(*EStr); ok {
 					return func(st *State) {
@@ -1606,4 +1622,24 @@ func (r *Run) siblingClosure(fr *Frame, v ssa.Value) (*ssa.Function, []Val) {
 		}
 	}
 	return callee, binds
+}
+
+// allMapsComps: the three components (membership, values, lengths) of every map of the key and element types named by
+// allmaps("K", "V")
+func (r *Run) allMapsComps(pkg *types.Package, x *ECall) []string {
+	if len(x.Args) != 2 {
+		return nil
+	}
+	ks, ok1 := x.Args[0].(*EStr)
+	vs, ok2 := x.Args[1].(*EStr)
+	if !ok1 || !ok2 {
+		return nil
+	}
+	kt, vt := r.resolveType(pkg, ks.V), r.resolveType(pkg, vs.V)
+	if kt == nil || vt == nil {
+		return nil
+	}
+	m := types.NewMap(kt, vt)
+	h, v := r.mapComps(m)
+	return []string{h, v, r.mapLenComp(m)}
 }
